@@ -18,7 +18,8 @@ ID = 'C06'
 MODULE = 'PyTough.Props.C06'
 TARGETS = ['PyTough.Props.C06', 'drv_c05']
 THEOREMS = ['Props.C06.' + t for t in ['scan_reads_selected_lines', 'history_table_eq_cells', 'reversed_key_negated',
-                                    'history_leaves_reader_unchanged', 'history_preserves_view']]
+                                    'history_leaves_reader_unchanged', 'history_preserves_view',
+                                    'skip_to_nonblank_spins_iff', 'read_until_spins_iff', 'skipto_progresses']]
 LEVEL_TEXT = ('Proof: 5 Lean theorems about the model of t2listing.history(): the one-pass read of the selected rows of a table returns for every '
               'entry (any number, any order, repeated rows) exactly the cell that the row reader gives for that row line, with the same exception '
               'when a cell cannot be read (scan_reads_selected_lines, history_table_eq_cells); a reversed connection name yields the negated value; '
